@@ -34,6 +34,11 @@ Pinned == {"basepath_needs_host",        \* F-C17-4   servers only when there is
            "back_json_only",             \* F-C17-12
            "back_body_name_search_first"} \* F-C17-15  a free name among body / requestBody is demanded even when x-originalParamName is there
 
+(* switches of behaviours that have been repaired in the tree (not in Pinned any more): *)
+(*   "back_no_discriminator"     F-C17-1                                                 *)
+(*   "back_binary_param_panics"  F-C17-14 FromV3Parameter dereferenced the nil schema    *)
+Repaired == {"back_no_discriminator", "back_binary_param_panics"}
+
 RefV(o) == IF o.m["$ref"].t = "str" THEN o.m["$ref"].s ELSE "?"
 RefO(r) == O(KV("$ref", S(r)))
 Rew(ref, names, from, to) ==
@@ -274,7 +279,10 @@ FromV3Param(p, comps, names) ==
                     @@ If(IsTrue(p, "required"), KV("required", B(TRUE)))
         IN IF ~Has(p, "schema") THEN O(base)
            ELSE LET r == FromV3Schema(p.m["schema"], comps, names) IN
-                IF IsParam(r) THEN O(KV("$panic", S("nil schema")))        \* the code dereferences the nil schema
+                IF IsParam(r) THEN
+                   IF "back_binary_param_panics" \in Dev
+                   THEN O(KV("$panic", S("nil schema")))        \* F-C17-14 (repaired in the tree): the nil schema was dereferenced
+                   ELSE O(base @@ [k \in Keys(p.m["schema"]) \cap {"type", "format"} |-> p.m["schema"].m[k]])   \* type and format are kept
                 ELSE IF Has(r, "$ref") THEN O(base @@ KV("schema", r))
                 ELSE O(base @@ [k \in Keys(r) \cap ParamKeys |-> r.m[k]])
 
